@@ -24,3 +24,4 @@ using std::isnan; using std::isinf; using std::isfinite; using std::signbit; usi
 #define VERIF_SAME_D(a, b) (((a) == (b) && std::signbit(a) == std::signbit(b)) || (std::isnan(a) && std::isnan(b)))
 #define VERIF_UP(c) ((char)verif_toupper(c))
 static inline int verif_index_of(const char *s, char c) { for (int i = 0; s[i] != 0; ++i) if (s[i] == c) return i; return -1; }
+static long long vm_last_k;
